@@ -43,7 +43,7 @@ func main() {
 		"go-wire time is 'nanoseconds since epoch but with millisecond precision' (time.go): a decoded time must equal the original within 1 ms and exactly for millisecond times; times outside the int64-nanosecond range (before 1678 / after 2262, incl. the zero time.Time, for which time.UnixNano is undefined) are outside the binary format's domain: observed and counted, not judged; the location of a time is not encoded",
 		"go-wire JSON strings go through encoding/json, which coerces invalid UTF-8 to U+FFFD (documented there): strings that are not valid UTF-8 are judged for the binary format only; chain ids that are not valid UTF-8 (they cannot come out of a JSON genesis document) are observed, not judged, in the sign-bytes monitor",
 		"idempotence (a second encode-decode-encode pass is a fixed point) is demanded even for those lossy inputs",
-		"allocation bound: go-wire binary decoders with a caller limit 64*max(limit,len)+64 KiB; reactors' DecodeMessage with their built-in limit in place of the caller's; decoders without any limit parameter (JSON, RLP, crypto.*FromBytes) 1024*len+1 MiB (the input length is their only bound). TotalAlloc deltas are exact because the child runs with GOMAXPROCS=1 and nothing else allocates",
+		"allocation bound: go-wire binary decoders with a caller limit 64*max(limit,len)+64 KiB; reactors' DecodeMessage with their built-in limit in place of the caller's; decoders without any limit parameter (JSON, RLP, crypto.*FromBytes) 1024*len+1 MiB (the input length is their only bound). TotalAlloc deltas are exact because the child runs with GOMAXPROCS=1 and nothing else allocates; every decoder is warmed up with a valid input first and a decode that exceeds the bound is measured a second time (the smaller figure counts) so that go-wire's lazily built per-type information is not charged to an input",
 		"a child that dies is restarted after the killing input; after 60 deaths inside one group (one seed and its mutants) the rest of that group is skipped and counted (robust_groups_cut_short_after_60_deaths): its decoder is in violation many times over by then; a shard stops after 150 deaths / restarts / allocations above 16 MiB (a tree whose decoders are broadly unguarded would need hours) and its unfinished part makes the run inconclusive unless violations fail it anyway",
 		"unexported wire structs (p2p authSigMessage, msgPacket) are exercised through structural twins; unexported registered message types (WAL msgInfo/timeoutInfo, blockchain and PEX messages) are built by reflection from go-wire's own registry",
 		"sign-bytes identity of a block id / part-set header is BlockID.Equals (bytes.Equal: nil == empty hash)",
